@@ -10,6 +10,8 @@
        against an honest real Communicator or a scripted hostile peer.  Fetch = one GetBlocksFromNumber round trip seen
        at the pipe with the answer the peer gave; the pipeline of Sync.tla is run on exactly these answers (decode and
        import steps are silent) and must be able to end in the reported state.
+   (H) SStart{local,best,anc,stream} BEnd{...}   handleBlockStream (hook) fed a hand-made stream with nil throttle markers
+       at chosen positions: nil entries are skipped, every block is imported, no error.
    (C) Conn Msg{code,cls,call,err,reply,feed,pool,fetch,unk,same}   one message through rpc.Serve/handleRPC of a node.
    (S) SyncEnd{prefers,converged,validBest,storeOK,hostile,dropped}   summary of a real Communicator.Sync run between two nodes.
 
@@ -61,6 +63,16 @@ TBStart ==
   /\ mode' = ev.sched
   /\ Consume /\ UNCHANGED <<varsA, varsC, scen>>
 
+\* the block stream handler driven on its own: the stream (blocks and nil throttle markers) is given, nothing is fetched
+TSStart ==
+  /\ IsEvent("SStart")
+  /\ LET S == ToSet(ev.local)
+         b == CHOOSE x \in S : x.id = ev.best
+         q == [i \in 1..Len(ev.stream) |-> IF ev.stream[i].id = "nil" THEN Nil ELSE ev.stream[i]]
+     IN BStartWith(S, b, ev.anc, q, TRUE)
+  /\ mode' = "free"
+  /\ Consume /\ UNCHANGED <<varsA, varsC, scen>>
+
 Answer(e) == IF e.t = "blocks" THEN [t |-> "blocks", bs |-> e.bs] ELSE [t |-> e.t]
 
 (* Schedules of the silent steps (decode, import).  "free": every interleaving the queues allow is explored - used for
@@ -90,6 +102,7 @@ TFetch ==
   /\ IsEvent("Fetch")
   /\ mode = "eager" => ~HandleOK /\ ~DecCanMove
   /\ ev.from = from                          \* batches are requested from ancestor + 1, then from + len(previous)
+  /\ Has(ev, "sizes") => Len(ev.bs) = Served(ev.sizes, 524288, MaxBatch)    \* an honest server: (D), never empty while it has a block
   /\ Fetch(Answer(ev))
   /\ tainted' = (tainted \/ ev.bad)
   /\ Consume /\ UNCHANGED <<varsA, varsC, scen, mode>>
@@ -142,7 +155,7 @@ TSyncEnd ==
 TNote == IsEvent("Note") /\ Consume /\ UNCHANGED <<vars, mode>>
 
 Init == IdleA /\ IdleB /\ IdleC /\ scen = NoScen /\ l = 1 /\ mode = "free" /\ HWMInit
-Next == TAStart \/ TProbe \/ TASilent \/ TAResult \/ TBStart \/ TFetch \/ TBSilent \/ TBEnd \/ TConn \/ TMsg
+Next == TAStart \/ TProbe \/ TASilent \/ TAResult \/ TBStart \/ TSStart \/ TFetch \/ TBSilent \/ TBEnd \/ TConn \/ TMsg
         \/ TSyncEnd \/ TNote
 Spec == Init /\ [][Next]_tvars
 
